@@ -152,6 +152,7 @@ func (w *netw) commit() error {
 	}
 	ln := w.nodes[l]
 	w.idxOf = append(w.idxOf, ln.cc.VerifRaft().LastIndex())
+	ln.settle()
 	w.next++
 	calls, got := ln.tr.take(1)
 	if !got {
